@@ -243,6 +243,17 @@ def build_node(rt, nd, prefix):
                 Graph([gn])
             except Exception:  # noqa: BLE001
                 pass
+        def do_map(g, names):
+            clone = nd["clone"]
+            clone = False if clone == [IR.NONE] else (True if clone == ["~all"] else list(clone))
+            return g.map_over(*names, mode=nd["map_mode"], error_handling=nd["map_eh"], clone=clone)
+        mapped_first = bool(nd["map_over"] and nd.get("map_first"))
+        if mapped_first:
+            # the mapping is configured on the un-renamed wrapper (inner names); the renames come afterwards
+            o2i = dict(map(tuple, nd["inmap"]))
+            if isinstance(nd["clone"], list) and nd["clone"] not in ([IR.NONE], ["~all"]):
+                nd = dict(nd, clone=[o2i.get(c, c) for c in nd["clone"]])
+            gn = do_map(gn, [o2i.get(p, p) for p in nd["map_over"]])
         rin = {i: o for o, i in nd["inmap"] if o != i}
         if rin:
             gn = gn.with_inputs(rin)
@@ -251,10 +262,8 @@ def build_node(rt, nd, prefix):
             gn = gn.with_outputs(rout)
         if set(gn.inputs) != set(nd["inputs"]) or set(gn.outputs) != set(nd["outputs"]):
             raise InterfaceMismatch(f"graph node {path}: IR interface {nd['inputs']}->{nd['outputs']} but the real node has {gn.inputs}->{gn.outputs}")
-        if nd["map_over"]:
-            clone = nd["clone"]
-            clone = False if clone == [IR.NONE] else (True if clone == ["~all"] else list(clone))
-            gn = gn.map_over(*nd["map_over"], mode=nd["map_mode"], error_handling=nd["map_eh"], clone=clone)
+        if nd["map_over"] and not mapped_first:
+            gn = do_map(gn, nd["map_over"])
         return gn
     raise ValueError(kind)
 
